@@ -177,9 +177,20 @@ func (s *v4Server) ResetLeases(leases []*dhcpsvc.Lease) (err error) {
 	return nil
 }
 
-// getLeasesRef returns the actual leases slice.  For internal use only.
-func (s *v4Server) getLeasesRef() []*dhcpsvc.Lease {
-	return s.leases
+// getLeasesRef returns the leases for storing them.  For internal use only.
+// The leases are copied under the lock, since the database is written by the
+// goroutines of the packet handler and of the HTTP API after they have released
+// it, while the other ones may be changing the leases.
+func (s *v4Server) getLeasesRef() (leases []*dhcpsvc.Lease) {
+	s.leasesLock.Lock()
+	defer s.leasesLock.Unlock()
+
+	leases = make([]*dhcpsvc.Lease, 0, len(s.leases))
+	for _, l := range s.leases {
+		leases = append(leases, l.Clone())
+	}
+
+	return leases
 }
 
 // isBlocklisted returns true if this lease holds a blocklisted IP.
